@@ -179,6 +179,11 @@ static void exec_line(const char *line_in) {
         { uint8_t *ex = malloc(o->len ? o->len : 1); memcpy(ex, o->buf, o->len); free(o->buf); o->buf = ex; if (o->len == 0) { free(o->buf); o->buf = malloc(0); if (!o->buf) o->buf = malloc(1); } }
         int r = arg[0][0] == 'a' ? binson_parser_init_array(p, o->buf, o->len) : binson_parser_init(p, o->buf, o->len);
         sprintf(rb, "%d", r); pobs(k, rb);
+    } else if (!strcmp(op, "B") && na >= 1) {
+        /* rewrite the caller's buffer in place under the live parser (same size) */
+        NEEDP; uint8_t *nb; size_t nl = unhex(arg[0], &nb);
+        if (nl == o->len && o->buf) { memcpy(o->buf, nb, nl); fprintf(fout, "B ok\n"); } else fprintf(fout, "B size-mismatch\n");
+        free(nb);
     } else if (!strcmp(op, "r")) BOOLOP(binson_parser_reset(p));
     else if (!strcmp(op, "v")) BOOLOP(binson_parser_verify(p));
     else if (!strcmp(op, "n")) BOOLOP(binson_parser_next(p));
@@ -673,15 +678,31 @@ static void gen_reuse(long id) {
     /* the document and script under test */
     arr = chance(25); gen_doc(&D, arr, chance(30), 2 + (int)rn(10));
     uint64_t save = S;
-    int how = (int)rn(3);
-    if (how == 0) { init_doc(0, arr, &D); } else if (how == 1) { init_doc(0, arr, &D); emit("@0 n"); emit("@0 r"); } else { init_doc(0, arr, &D); emit("@0 v"); }
+    int how = (int)rn(4);
+    if (how == 3 && D.n >= 16 && D.n < 30000) {
+        /* same object, same buffer memory: an earlier document of exactly the same size is traversed into a nested object,
+           then the bytes are overwritten in place - a damaged frame first (reset fails), then the document under test */
+        Buf F = {0}; size_t n = D.n; size_t over = arr ? 9 : 12; size_t L = n - over; if (L >= 128) L -= 1;
+        put(&F, arr ? 0x42 : 0x40); if (!arr) { put(&F, 0x14); put(&F, 0x01); put(&F, 'a'); }
+        put(&F, 0x40); put(&F, 0x14); put(&F, 0x01); put(&F, 'z');
+        put_int(&F, 0x18, (int64_t)L, width_k((int64_t)L)); for (size_t i = 0; i < L; i++) put(&F, (uint8_t)r64());
+        put(&F, 0x41); put(&F, arr ? 0x43 : 0x41);
+        if (F.n == n) {
+            init_doc(0, arr, &F);
+            emit("@0 %s", arr ? "ia" : "io"); emit("@0 n"); emit("@0 io"); emit("@0 n"); if (chance(50)) emit("@0 n");
+            char *h = hexs(F.b, F.n); h[strlen(h) - 1] = '0'; h[strlen(h) - 2] = '0'; emit("@0 B %s", h); free(h); emit("@0 r");
+            h = hexs(D.b, D.n); emit("@0 B %s", h); free(h); emit("@0 r");
+        } else { init_doc(0, arr, &D); }
+        free(F.b);
+    }
+    else if (how == 0 || how == 3) { init_doc(0, arr, &D); } else if (how == 1) { init_doc(0, arr, &D); emit("@0 n"); emit("@0 r"); } else { init_doc(0, arr, &D); emit("@0 v"); }
     int ops2 = (int)rn(20); uint64_t s2 = S;
     emit("M a0"); for (int i = 0; i < ops2; i++) any_op(0); emit("M a1");
     (void)save;
     uint64_t s3 = S;
     new_parser(1, md); init_doc(1, arr, &D); if (how == 2) emit("@1 v");
     /* same op stream on the fresh object: re-derived from the same PRNG state */
-    S = s2; emit("M b0"); for (int i = 0; i < ops2; i++) any_op(1); emit("M b1"); S = s3 ^ S;
+    S = s2; emit("M b0"); for (int i = 0; i < ops2; i++) any_op(1); emit("M b1"); S = s3; r64();
 }
 
 static void load_corpus_case(long id, const char *path, int valid) {
